@@ -35,14 +35,11 @@ CONSTANTS
   MayClose,     \* design model: may the client close stdin
   Polite,       \* design model: the client uses a key only after the response to its "build" (as the JS client does)
   Pings,        \* --ping: the service sends "ping" requests
-  Stragglers,   \* TRUE: a cancelled scan abandons its parse goroutines (as
-                \* scanAllDependencies does); they go on asking the client
   RelayUnsafe   \* TRUE: the relay goroutine reads activeBuild.ctx when it runs
                 \* (as service.go does); FALSE: it uses the ctx captured at on-start
 
 None == -1
 NoKey == 0
-Stray == -2   \* owner of a callback request that no build waits for any more
 
 VARIABLES
   inbox,        \* packets on stdin not yet decoded (FIFO; decoding is sequential)
@@ -60,12 +57,10 @@ VARIABLES
   grp,          \* rebuild wait groups: group id -> counter
   usedKeys,     \* keys the client used in a "build" request
   ncb,          \* callback ids handed out
-  strag,        \* key -> a cancelled scan of this key may have left goroutines behind
-  stragUsed,    \* history: a callback request outlived the scan of its build
   opAfterDispose \* history: an operation started on a context after Dispose() began
 
 vars == <<inbox, req, ab, cx, cb, wbuf, mainBusy, keepAlive, stdinClosed, eof, exited, crashed,
-          relays, grp, usedKeys, ncb, strag, stragUsed, opAfterDispose>>
+          relays, grp, usedKeys, ncb, opAfterDispose>>
 
 NoPkt == [t |-> "none", id |-> None, cmd |-> "", key |-> NoKey, owner |-> None]
 RespPkt(i) == [t |-> "resp", id |-> i, cmd |-> "", key |-> NoKey, owner |-> None]
@@ -104,8 +99,6 @@ Init ==
   /\ grp = [x \in {} |-> 0]
   /\ usedKeys = {}
   /\ ncb = 0
-  /\ strag = [k \in Keys |-> FALSE]
-  /\ stragUsed = FALSE
   /\ opAfterDispose = FALSE
 
 (***************************************************************************)
@@ -120,7 +113,7 @@ Send(i, cmd, k, isCtx, plug, bad) ==
   /\ req' = req @@ (i :> NewReq(cmd, k, isCtx, plug, bad))
   /\ inbox' = Append(inbox, [t |-> "req", id |-> i, err |-> FALSE])
   /\ usedKeys' = IF cmd = "build" THEN usedKeys \cup {k} ELSE usedKeys
-  /\ UNCHANGED <<ab, cx, cb, wbuf, mainBusy, keepAlive, stdinClosed, eof, exited, crashed, relays, grp, ncb, strag, stragUsed, opAfterDispose>>
+  /\ UNCHANGED <<ab, cx, cb, wbuf, mainBusy, keepAlive, stdinClosed, eof, exited, crashed, relays, grp, ncb, opAfterDispose>>
 
 \* The client answers a request of the service (err: the answer carries an error)
 Answer(m, err) ==
@@ -128,12 +121,12 @@ Answer(m, err) ==
   /\ m \in DOMAIN cb /\ cb[m].st = "written"
   /\ cb' = [cb EXCEPT ![m].st = "answered"]
   /\ inbox' = Append(inbox, [t |-> "resp", id |-> m, err |-> err])
-  /\ UNCHANGED <<req, ab, cx, wbuf, mainBusy, keepAlive, stdinClosed, eof, exited, crashed, relays, grp, usedKeys, ncb, strag, stragUsed, opAfterDispose>>
+  /\ UNCHANGED <<req, ab, cx, wbuf, mainBusy, keepAlive, stdinClosed, eof, exited, crashed, relays, grp, usedKeys, ncb, opAfterDispose>>
 
 CloseStdin ==
   /\ ~stdinClosed
   /\ stdinClosed' = TRUE
-  /\ UNCHANGED <<inbox, req, ab, cx, cb, wbuf, mainBusy, keepAlive, eof, exited, crashed, relays, grp, usedKeys, ncb, strag, stragUsed, opAfterDispose>>
+  /\ UNCHANGED <<inbox, req, ab, cx, cb, wbuf, mainBusy, keepAlive, eof, exited, crashed, relays, grp, usedKeys, ncb, opAfterDispose>>
 
 (***************************************************************************)
 (* The decode goroutine (runService / handleIncomingPacket)                *)
@@ -153,7 +146,7 @@ RecvBuild(i) ==
   /\ CanDecode /\ HeadIsReq(i) /\ req[i].cmd \in {"build", "transform"} /\ Pop
   /\ req' = [req EXCEPT ![i].st = "decoded"]
   /\ keepAlive' = keepAlive + 1
-  /\ UNCHANGED <<ab, cx, cb, wbuf, mainBusy, stdinClosed, eof, exited, crashed, relays, grp, usedKeys, ncb, strag, stragUsed, opAfterDispose>>
+  /\ UNCHANGED <<ab, cx, cb, wbuf, mainBusy, stdinClosed, eof, exited, crashed, relays, grp, usedKeys, ncb, opAfterDispose>>
 
 \* case "rebuild"
 RecvRebuild(i) ==
@@ -168,7 +161,7 @@ RecvRebuild(i) ==
             /\ UNCHANGED mainBusy
        ELSE /\ MainAnswer(i, "cannot")
             /\ UNCHANGED <<ab, grp, keepAlive>>
-  /\ UNCHANGED <<cx, cb, wbuf, stdinClosed, eof, exited, crashed, relays, usedKeys, ncb, strag, stragUsed, opAfterDispose>>
+  /\ UNCHANGED <<cx, cb, wbuf, stdinClosed, eof, exited, crashed, relays, usedKeys, ncb, opAfterDispose>>
 
 \* case "cancel": the rebuild wait group and the didGetCancel flag are
 \* handled on the decode goroutine, Cancel() itself on a new one.
@@ -188,7 +181,7 @@ RecvCancel(i) ==
                       /\ UNCHANGED keepAlive
        ELSE /\ MainAnswer(i, "ok")
             /\ UNCHANGED <<ab, keepAlive>>
-  /\ UNCHANGED <<cx, cb, wbuf, stdinClosed, eof, exited, crashed, relays, grp, usedKeys, ncb, strag, stragUsed, opAfterDispose>>
+  /\ UNCHANGED <<cx, cb, wbuf, stdinClosed, eof, exited, crashed, relays, grp, usedKeys, ncb, opAfterDispose>>
 
 \* case "dispose": the context pointer is cleared on the decode goroutine
 RecvDispose(i) ==
@@ -201,7 +194,7 @@ RecvDispose(i) ==
             /\ UNCHANGED mainBusy
        ELSE /\ MainAnswer(i, "ok")
             /\ UNCHANGED <<ab, keepAlive>>
-  /\ UNCHANGED <<cx, cb, wbuf, stdinClosed, eof, exited, crashed, relays, grp, usedKeys, ncb, strag, stragUsed, opAfterDispose>>
+  /\ UNCHANGED <<cx, cb, wbuf, stdinClosed, eof, exited, crashed, relays, grp, usedKeys, ncb, opAfterDispose>>
 
 \* case "resolve"
 RecvResolve(i) ==
@@ -214,13 +207,13 @@ RecvResolve(i) ==
             /\ UNCHANGED mainBusy
        ELSE /\ MainAnswer(i, "error")
             /\ UNCHANGED <<ab, keepAlive>>
-  /\ UNCHANGED <<cx, cb, wbuf, stdinClosed, eof, exited, crashed, relays, grp, usedKeys, ncb, strag, stragUsed, opAfterDispose>>
+  /\ UNCHANGED <<cx, cb, wbuf, stdinClosed, eof, exited, crashed, relays, grp, usedKeys, ncb, opAfterDispose>>
 
 \* default: "Invalid command"
 RecvBogus(i) ==
   /\ CanDecode /\ HeadIsReq(i) /\ req[i].cmd = "bogus" /\ Pop
   /\ MainAnswer(i, "error")
-  /\ UNCHANGED <<ab, cx, cb, wbuf, keepAlive, stdinClosed, eof, exited, crashed, relays, grp, usedKeys, ncb, strag, stragUsed, opAfterDispose>>
+  /\ UNCHANGED <<ab, cx, cb, wbuf, keepAlive, stdinClosed, eof, exited, crashed, relays, grp, usedKeys, ncb, opAfterDispose>>
 
 \* the decode goroutine hands its packet to the writer
 MainHandoff ==
@@ -229,14 +222,14 @@ MainHandoff ==
   /\ req' = [req EXCEPT ![mainBusy].st = "handed"]
   /\ mainBusy' = None
   /\ keepAlive' = keepAlive + 1          \* sendPacket: Add(1), the writer calls Done()
-  /\ UNCHANGED <<inbox, ab, cx, cb, stdinClosed, eof, exited, crashed, relays, grp, usedKeys, ncb, strag, stragUsed, opAfterDispose>>
+  /\ UNCHANGED <<inbox, ab, cx, cb, stdinClosed, eof, exited, crashed, relays, grp, usedKeys, ncb, opAfterDispose>>
 
 \* A response of the client to a request of the service is decoded; the
 \* waiting goroutine continues (the intermediate goroutine that delivers the
 \* value holds its own keep-alive reference while it does so).
 CbOwnerDone(m, err) ==
   LET c == cb[m] k == cb[m].key IN
-  IF c.cmd = "ping" \/ c.owner = Stray THEN UNCHANGED <<req, cx>>
+  IF c.cmd = "ping" THEN UNCHANGED <<req, cx>>
   ELSE IF c.owner # None
     THEN /\ req' = [req EXCEPT ![c.owner].n = @ - 1]
          /\ UNCHANGED cx
@@ -252,19 +245,19 @@ RecvResponse(m) ==
   /\ m \in DOMAIN cb /\ cb[m].st = "answered"
   /\ cb' = [cb EXCEPT ![m].st = "done"]
   /\ CbOwnerDone(m, inbox[1].err)
-  /\ UNCHANGED <<ab, wbuf, mainBusy, keepAlive, stdinClosed, eof, exited, crashed, relays, grp, usedKeys, ncb, strag, stragUsed, opAfterDispose>>
+  /\ UNCHANGED <<ab, wbuf, mainBusy, keepAlive, stdinClosed, eof, exited, crashed, relays, grp, usedKeys, ncb, opAfterDispose>>
 
 \* end of stdin: the deferred keepAliveWaitGroup.Done(); Wait()
 MainEOF ==
   /\ Alive /\ ~eof /\ stdinClosed /\ inbox = <<>> /\ mainBusy = None
   /\ eof' = TRUE
   /\ keepAlive' = keepAlive - 1
-  /\ UNCHANGED <<inbox, req, ab, cx, cb, wbuf, mainBusy, stdinClosed, exited, crashed, relays, grp, usedKeys, ncb, strag, stragUsed, opAfterDispose>>
+  /\ UNCHANGED <<inbox, req, ab, cx, cb, wbuf, mainBusy, stdinClosed, exited, crashed, relays, grp, usedKeys, ncb, opAfterDispose>>
 
 Exit ==
   /\ Alive /\ eof /\ keepAlive = 0
   /\ exited' = TRUE
-  /\ UNCHANGED <<inbox, req, ab, cx, cb, wbuf, mainBusy, keepAlive, stdinClosed, eof, crashed, relays, grp, usedKeys, ncb, strag, stragUsed, opAfterDispose>>
+  /\ UNCHANGED <<inbox, req, ab, cx, cb, wbuf, mainBusy, keepAlive, stdinClosed, eof, crashed, relays, grp, usedKeys, ncb, opAfterDispose>>
 
 (***************************************************************************)
 (* The writer goroutine                                                    *)
@@ -281,7 +274,7 @@ WriterStep(m) ==
             /\ UNCHANGED req
   /\ wbuf' = NoPkt
   /\ keepAlive' = keepAlive - 1
-  /\ UNCHANGED <<inbox, ab, cx, mainBusy, stdinClosed, eof, exited, crashed, relays, grp, usedKeys, strag, stragUsed, opAfterDispose>>
+  /\ UNCHANGED <<inbox, ab, cx, mainBusy, stdinClosed, eof, exited, crashed, relays, grp, usedKeys, opAfterDispose>>
 
 \* --ping: a "ping" request is handed to the writer and written (one step:
 \* the ping goroutine holds no other state)
@@ -289,7 +282,7 @@ Ping(m) ==
   /\ Pings /\ Alive /\ wbuf = NoPkt /\ m \notin DOMAIN cb
   /\ cb' = cb @@ (m :> [cmd |-> "ping", key |-> NoKey, owner |-> None, st |-> "written"])
   /\ ncb' = ncb + 1
-  /\ UNCHANGED <<inbox, req, ab, cx, wbuf, mainBusy, keepAlive, stdinClosed, eof, exited, crashed, relays, grp, usedKeys, strag, stragUsed, opAfterDispose>>
+  /\ UNCHANGED <<inbox, req, ab, cx, wbuf, mainBusy, keepAlive, stdinClosed, eof, exited, crashed, relays, grp, usedKeys, opAfterDispose>>
 
 \* a handler goroutine hands its response to the writer and ends (its
 \* deferred Done() calls run after sendPacket returned)
@@ -299,7 +292,7 @@ Respond(i) ==
   /\ req' = [req EXCEPT ![i].st = "handed", ![i].ref = FALSE]
   /\ ab' = IF req[i].ref THEN [ab EXCEPT ![req[i].key].refs = @ - 1] ELSE ab
   \* sendPacket Add(1) and the handler's deferred Done(): no net change
-  /\ UNCHANGED <<inbox, cx, cb, mainBusy, keepAlive, stdinClosed, eof, exited, crashed, relays, grp, usedKeys, ncb, strag, stragUsed, opAfterDispose>>
+  /\ UNCHANGED <<inbox, cx, cb, mainBusy, keepAlive, stdinClosed, eof, exited, crashed, relays, grp, usedKeys, ncb, opAfterDispose>>
 
 (***************************************************************************)
 (* The abstract build behind a key                                         *)
@@ -319,7 +312,7 @@ RelayCheck(k) ==
             /\ cx' = [cx EXCEPT ![k].relayChk = TRUE, ![k].relaySpawned = TRUE]
        ELSE /\ cx' = [cx EXCEPT ![k].relayChk = TRUE]
             /\ UNCHANGED <<grp, relays>>
-  /\ UNCHANGED <<inbox, req, ab, cb, wbuf, mainBusy, keepAlive, stdinClosed, eof, exited, crashed, usedKeys, ncb, strag, stragUsed, opAfterDispose>>
+  /\ UNCHANGED <<inbox, req, ab, cb, wbuf, mainBusy, keepAlive, stdinClosed, eof, exited, crashed, usedKeys, ncb, opAfterDispose>>
 
 \* Cancel() on the context of k: <<new cx[k], generation to wait for (0 = none)>>
 CancelCtx(k) ==
@@ -337,14 +330,14 @@ RelayRun(r) ==
        ELSE /\ cx' = [cx EXCEPT ![r.key] = CancelCtx(r.key)[1]]
             /\ relays' = (relays \ {r}) \cup {[r EXCEPT !.st = "wait", !.w = CancelCtx(r.key)[2]]}
             /\ UNCHANGED crashed
-  /\ UNCHANGED <<inbox, req, ab, cb, wbuf, mainBusy, keepAlive, stdinClosed, eof, exited, grp, usedKeys, ncb, strag, stragUsed, opAfterDispose>>
+  /\ UNCHANGED <<inbox, req, ab, cb, wbuf, mainBusy, keepAlive, stdinClosed, eof, exited, grp, usedKeys, ncb, opAfterDispose>>
 
 RelayDone(r) ==
   /\ Alive /\ r \in relays /\ r.st = "wait"
   /\ r.w = 0 \/ BuildGone(r.key, r.w)
   /\ relays' = relays \ {r}
   /\ grp' = [grp EXCEPT ![r.g] = @ - 1]
-  /\ UNCHANGED <<inbox, req, ab, cx, cb, wbuf, mainBusy, keepAlive, stdinClosed, eof, exited, crashed, usedKeys, ncb, strag, stragUsed, opAfterDispose>>
+  /\ UNCHANGED <<inbox, req, ab, cx, cb, wbuf, mainBusy, keepAlive, stdinClosed, eof, exited, crashed, usedKeys, ncb, opAfterDispose>>
 
 \* the plugin proxy asks the client: on-start (once per build, in parallel
 \* with the relay check), on-resolve / on-load (any number while scanning),
@@ -355,49 +348,29 @@ SendOnStart(k) ==
   /\ wbuf' = CbPkt("on-start", k, None)
   /\ cx' = [cx EXCEPT ![k].startCb = "sent"]
   /\ keepAlive' = keepAlive + 1
-  /\ UNCHANGED <<inbox, req, ab, cb, mainBusy, stdinClosed, eof, exited, crashed, relays, grp, usedKeys, ncb, strag, stragUsed, opAfterDispose>>
+  /\ UNCHANGED <<inbox, req, ab, cb, mainBusy, stdinClosed, eof, exited, crashed, relays, grp, usedKeys, ncb, opAfterDispose>>
 
 \* the on-start barrier (ScanBundle: onStartWaitGroup.Wait()); a build whose
 \* cancel flag is set here does not scan
 StartDone(k) ==
   /\ Alive /\ cx[k].phase = "start" /\ cx[k].relayChk /\ cx[k].startCb = "done"
   /\ cx' = [cx EXCEPT ![k].phase = IF cx[k].cancelFlag THEN "compile" ELSE "scan"]
-  /\ UNCHANGED <<inbox, req, ab, cb, wbuf, mainBusy, keepAlive, stdinClosed, eof, exited, crashed, relays, grp, usedKeys, ncb, strag, stragUsed, opAfterDispose>>
+  /\ UNCHANGED <<inbox, req, ab, cb, wbuf, mainBusy, keepAlive, stdinClosed, eof, exited, crashed, relays, grp, usedKeys, ncb, opAfterDispose>>
 
 SendScanCb(k, cmd) ==
   /\ Alive /\ cx[k].phase = "scan" /\ cx[k].plug /\ cx[k].nscan < MaxScanCb /\ wbuf = NoPkt
   /\ wbuf' = CbPkt(cmd, k, None)
   /\ cx' = [cx EXCEPT ![k].out = @ + 1, ![k].nscan = @ + 1]
   /\ keepAlive' = keepAlive + 1
-  /\ UNCHANGED <<inbox, req, ab, cb, mainBusy, stdinClosed, eof, exited, crashed, relays, grp, usedKeys, ncb, strag, stragUsed, opAfterDispose>>
+  /\ UNCHANGED <<inbox, req, ab, cb, mainBusy, stdinClosed, eof, exited, crashed, relays, grp, usedKeys, ncb, opAfterDispose>>
 
-\* scanAllDependencies returns: normally when every parse goroutine has
-\* delivered its result ...
+\* the scan is over when every parse goroutine has delivered its result (a
+\* cancelled scan stops early but ScanBundle still drains the result channel:
+\* "Always consume all unused results")
 ScanDone(k) ==
   /\ Alive /\ cx[k].phase = "scan" /\ cx[k].out = 0
   /\ cx' = [cx EXCEPT ![k].phase = "compile"]
-  /\ strag' = [strag EXCEPT ![k] = @ \/ (Stragglers /\ cx[k].cancelFlag)]
-  /\ UNCHANGED <<inbox, req, ab, cb, wbuf, mainBusy, keepAlive, stdinClosed, eof, exited, crashed, relays, grp, usedKeys, ncb, stragUsed, opAfterDispose>>
-
-\* ... but as soon as the cancel flag is seen it returns without them: the
-\* requests they have sent are nobody's any more, and they go on (StragSend)
-ScanCut(k) ==
-  /\ Stragglers /\ Alive /\ cx[k].phase = "scan" /\ cx[k].cancelFlag /\ cx[k].out > 0
-  /\ cx' = [cx EXCEPT ![k].phase = "compile", ![k].out = 0]
-  /\ cb' = [m \in DOMAIN cb |-> IF cb[m].key = k /\ cb[m].owner = None /\ cb[m].st # "done" /\ cb[m].cmd \in {"on-resolve", "on-load"}
-                                  THEN [cb[m] EXCEPT !.owner = Stray] ELSE cb[m]]
-  /\ wbuf' = IF wbuf.t = "creq" /\ wbuf.key = k /\ wbuf.owner = None /\ wbuf.cmd \in {"on-resolve", "on-load"}
-                THEN [wbuf EXCEPT !.owner = Stray] ELSE wbuf
-  /\ strag' = [strag EXCEPT ![k] = TRUE]
-  /\ stragUsed' = TRUE
-  /\ UNCHANGED <<inbox, req, ab, mainBusy, keepAlive, stdinClosed, eof, exited, crashed, relays, grp, usedKeys, ncb, opAfterDispose>>
-
-StragSend(k, cmd) ==
-  /\ Stragglers /\ Alive /\ strag[k] /\ wbuf = NoPkt
-  /\ wbuf' = CbPkt(cmd, k, Stray)
-  /\ keepAlive' = keepAlive + 1
-  /\ stragUsed' = TRUE
-  /\ UNCHANGED <<inbox, req, ab, cx, cb, mainBusy, stdinClosed, eof, exited, crashed, relays, grp, usedKeys, ncb, strag, opAfterDispose>>
+  /\ UNCHANGED <<inbox, req, ab, cb, wbuf, mainBusy, keepAlive, stdinClosed, eof, exited, crashed, relays, grp, usedKeys, ncb, opAfterDispose>>
 
 \* rebuildImpl reads the cancel flag after compiling: the outcome is fixed.
 \* ("The build was canceled" is only reported by a build without other
@@ -408,7 +381,7 @@ Sample(k) ==
   /\ cx' = [cx EXCEPT ![k].phase = "sampled",
                       ![k].outcome = IF cx[k].failed /\ cx[k].cancelFlag THEN "either"
                                      ELSE IF cx[k].failed THEN "errors" ELSE IF cx[k].cancelFlag THEN "cancelled" ELSE "ok"]
-  /\ UNCHANGED <<inbox, req, ab, cb, wbuf, mainBusy, keepAlive, stdinClosed, eof, exited, crashed, relays, grp, usedKeys, ncb, strag, stragUsed, opAfterDispose>>
+  /\ UNCHANGED <<inbox, req, ab, cb, wbuf, mainBusy, keepAlive, stdinClosed, eof, exited, crashed, relays, grp, usedKeys, ncb, opAfterDispose>>
 
 NeedsOnEnd(k) == cx[k].isCtx /\ (cx[k].plug \/ ab[k].within > 0)
 
@@ -417,12 +390,12 @@ SendOnEnd(k) ==
   /\ wbuf' = CbPkt("on-end", k, None)
   /\ cx' = [cx EXCEPT ![k].phase = "end"]
   /\ keepAlive' = keepAlive + 1
-  /\ UNCHANGED <<inbox, req, ab, cb, mainBusy, stdinClosed, eof, exited, crashed, relays, grp, usedKeys, ncb, strag, stragUsed, opAfterDispose>>
+  /\ UNCHANGED <<inbox, req, ab, cb, mainBusy, stdinClosed, eof, exited, crashed, relays, grp, usedKeys, ncb, opAfterDispose>>
 
 SkipOnEnd(k) ==
   /\ Alive /\ cx[k].phase = "sampled" /\ ~NeedsOnEnd(k)
   /\ cx' = [cx EXCEPT ![k].phase = "ended"]
-  /\ UNCHANGED <<inbox, req, ab, cb, wbuf, mainBusy, keepAlive, stdinClosed, eof, exited, crashed, relays, grp, usedKeys, ncb, strag, stragUsed, opAfterDispose>>
+  /\ UNCHANGED <<inbox, req, ab, cb, wbuf, mainBusy, keepAlive, stdinClosed, eof, exited, crashed, relays, grp, usedKeys, ncb, opAfterDispose>>
 
 \* the build is over (activeBuild = nil, waitGroup.Done()): every Rebuild()
 \* call that started or joined it returns its result
@@ -430,7 +403,7 @@ BuildEnd(k) ==
   /\ Alive /\ cx[k].phase = "ended"
   /\ cx' = [cx EXCEPT ![k].phase = "idle", ![k].members = {}]
   /\ req' = [i \in Ids |-> IF i \in cx[k].members THEN [req[i] EXCEPT !.st = "returned", !.kind = cx[k].outcome] ELSE req[i]]
-  /\ UNCHANGED <<inbox, ab, cb, wbuf, mainBusy, keepAlive, stdinClosed, eof, exited, crashed, relays, grp, usedKeys, ncb, strag, stragUsed, opAfterDispose>>
+  /\ UNCHANGED <<inbox, ab, cb, wbuf, mainBusy, keepAlive, stdinClosed, eof, exited, crashed, relays, grp, usedKeys, ncb, opAfterDispose>>
 
 (***************************************************************************)
 (* Handler goroutines                                                      *)
@@ -439,7 +412,7 @@ BuildEnd(k) ==
 RunTransform(i) ==
   /\ Alive /\ i \in Ids /\ req[i].cmd = "transform" /\ req[i].st = "decoded"
   /\ req' = [req EXCEPT ![i].st = "finished", ![i].kind = IF req[i].bad = "" THEN "ok" ELSE "error"]
-  /\ UNCHANGED <<inbox, ab, cx, cb, wbuf, mainBusy, keepAlive, stdinClosed, eof, exited, crashed, relays, grp, usedKeys, ncb, strag, stragUsed, opAfterDispose>>
+  /\ UNCHANGED <<inbox, ab, cx, cb, wbuf, mainBusy, keepAlive, stdinClosed, eof, exited, crashed, relays, grp, usedKeys, ncb, opAfterDispose>>
 
 \* handleBuildRequest up to createActiveBuild and plugin setup
 RunBuild(i) ==
@@ -455,7 +428,7 @@ RunBuild(i) ==
                       /\ cx' = [cx EXCEPT ![k] = [IdleCx EXCEPT !.isCtx = TRUE, !.plug = req[i].plug]]
                  ELSE /\ req' = [req EXCEPT ![i].st = "running"]
                       /\ cx' = [cx EXCEPT ![k] = StartBuild(k, i, FALSE, req[i].plug)]
-  /\ UNCHANGED <<inbox, cb, wbuf, mainBusy, stdinClosed, eof, exited, crashed, relays, grp, usedKeys, ncb, strag, stragUsed, opAfterDispose>>
+  /\ UNCHANGED <<inbox, cb, wbuf, mainBusy, stdinClosed, eof, exited, crashed, relays, grp, usedKeys, ncb, opAfterDispose>>
 
 \* api.Context() returned: the context pointer is published, or the active
 \* build is destroyed again
@@ -469,7 +442,7 @@ CtxCreated(i) ==
        ELSE /\ ab' = [ab EXCEPT ![k].hasCtx = TRUE, ![k].refs = @ + 1]
             /\ req' = [req EXCEPT ![i].st = "finished", ![i].kind = "ok"]
             /\ UNCHANGED keepAlive
-  /\ UNCHANGED <<inbox, cx, cb, wbuf, mainBusy, stdinClosed, eof, exited, crashed, relays, grp, usedKeys, ncb, strag, stragUsed, opAfterDispose>>
+  /\ UNCHANGED <<inbox, cx, cb, wbuf, mainBusy, stdinClosed, eof, exited, crashed, relays, grp, usedKeys, ncb, opAfterDispose>>
 
 \* api.Build() returned: destroyActiveBuild
 FinishBuild(i) ==
@@ -477,7 +450,7 @@ FinishBuild(i) ==
   /\ ab' = [ab EXCEPT ![req[i].key] = NoAB]
   /\ keepAlive' = keepAlive - 1
   /\ req' = [req EXCEPT ![i].st = "finished", ![i].kind = IF req[i].kind = "ok" THEN "ok" ELSE "errors"]
-  /\ UNCHANGED <<inbox, cx, cb, wbuf, mainBusy, stdinClosed, eof, exited, crashed, relays, grp, usedKeys, ncb, strag, stragUsed, opAfterDispose>>
+  /\ UNCHANGED <<inbox, cx, cb, wbuf, mainBusy, stdinClosed, eof, exited, crashed, relays, grp, usedKeys, ncb, opAfterDispose>>
 
 \* ctx.Rebuild(): start a build or join the active one
 RunRebuild(i) ==
@@ -487,7 +460,7 @@ RunRebuild(i) ==
                                 ELSE [cx[k] EXCEPT !.members = @ \cup {i}]]
      /\ opAfterDispose' = (opAfterDispose \/ cx[k].disposed)
   /\ req' = [req EXCEPT ![i].st = "running"]
-  /\ UNCHANGED <<inbox, ab, cb, wbuf, mainBusy, keepAlive, stdinClosed, eof, exited, crashed, relays, grp, usedKeys, ncb, strag, stragUsed>>
+  /\ UNCHANGED <<inbox, ab, cb, wbuf, mainBusy, keepAlive, stdinClosed, eof, exited, crashed, relays, grp, usedKeys, ncb>>
 
 \* the critical section after ctx.Rebuild() returned
 FinishRebuild(i) ==
@@ -498,7 +471,7 @@ FinishRebuild(i) ==
                       ![k].rwg = IF last THEN None ELSE @]
   /\ grp' = [grp EXCEPT ![req[i].a] = @ - 1]
   /\ req' = [req EXCEPT ![i].st = "finished"]
-  /\ UNCHANGED <<inbox, cx, cb, wbuf, mainBusy, keepAlive, stdinClosed, eof, exited, crashed, relays, usedKeys, ncb, strag, stragUsed, opAfterDispose>>
+  /\ UNCHANGED <<inbox, cx, cb, wbuf, mainBusy, keepAlive, stdinClosed, eof, exited, crashed, relays, usedKeys, ncb, opAfterDispose>>
 
 \* ctx.Cancel() (no dispose reference is taken: Cancel() on a disposed
 \* context does nothing)
@@ -507,7 +480,7 @@ RunCancel(i) ==
   /\ LET k == req[i].key IN
      /\ cx' = [cx EXCEPT ![k] = CancelCtx(k)[1]]
      /\ req' = [req EXCEPT ![i].st = "cwait", ![i].n = CancelCtx(k)[2]]
-  /\ UNCHANGED <<inbox, ab, cb, wbuf, mainBusy, keepAlive, stdinClosed, eof, exited, crashed, relays, grp, usedKeys, ncb, strag, stragUsed, opAfterDispose>>
+  /\ UNCHANGED <<inbox, ab, cb, wbuf, mainBusy, keepAlive, stdinClosed, eof, exited, crashed, relays, grp, usedKeys, ncb, opAfterDispose>>
 
 \* Cancel() returned and rebuildWaitGroup.Wait() returned
 FinishCancel(i) ==
@@ -515,14 +488,14 @@ FinishCancel(i) ==
   /\ req[i].n = 0 \/ BuildGone(req[i].key, req[i].n)
   /\ IF req[i].a = None THEN TRUE ELSE grp[req[i].a] = 0
   /\ req' = [req EXCEPT ![i].st = "finished", ![i].kind = "ok", ![i].n = 0]
-  /\ UNCHANGED <<inbox, ab, cx, cb, wbuf, mainBusy, keepAlive, stdinClosed, eof, exited, crashed, relays, grp, usedKeys, ncb, strag, stragUsed, opAfterDispose>>
+  /\ UNCHANGED <<inbox, ab, cx, cb, wbuf, mainBusy, keepAlive, stdinClosed, eof, exited, crashed, relays, grp, usedKeys, ncb, opAfterDispose>>
 
 \* disposeWaitGroup.Done()
 RunDispose(i) ==
   /\ Alive /\ i \in Ids /\ req[i].cmd = "dispose" /\ req[i].st = "decoded"
   /\ ab' = [ab EXCEPT ![req[i].key].refs = @ - 1]
   /\ req' = [req EXCEPT ![i].st = "dwait"]
-  /\ UNCHANGED <<inbox, cx, cb, wbuf, mainBusy, keepAlive, stdinClosed, eof, exited, crashed, relays, grp, usedKeys, ncb, strag, stragUsed, opAfterDispose>>
+  /\ UNCHANGED <<inbox, cx, cb, wbuf, mainBusy, keepAlive, stdinClosed, eof, exited, crashed, relays, grp, usedKeys, ncb, opAfterDispose>>
 
 \* disposeWaitGroup.Wait() returned; ctx.Dispose() begins
 BeginDispose(i) ==
@@ -531,7 +504,7 @@ BeginDispose(i) ==
      /\ ab[k].refs = 0
      /\ cx' = [cx EXCEPT ![k].disposed = TRUE]
      /\ req' = [req EXCEPT ![i].st = "disposing", ![i].n = IF cx[k].phase = "idle" THEN 0 ELSE cx[k].gen]
-  /\ UNCHANGED <<inbox, ab, cb, wbuf, mainBusy, keepAlive, stdinClosed, eof, exited, crashed, relays, grp, usedKeys, ncb, strag, stragUsed, opAfterDispose>>
+  /\ UNCHANGED <<inbox, ab, cb, wbuf, mainBusy, keepAlive, stdinClosed, eof, exited, crashed, relays, grp, usedKeys, ncb, opAfterDispose>>
 
 \* ctx.Dispose() returned; destroyActiveBuild
 FinishDispose(i) ==
@@ -540,26 +513,26 @@ FinishDispose(i) ==
   /\ ab' = [ab EXCEPT ![req[i].key] = NoAB]
   /\ keepAlive' = keepAlive - 1
   /\ req' = [req EXCEPT ![i].st = "finished", ![i].kind = "ok", ![i].n = 0]
-  /\ UNCHANGED <<inbox, cx, cb, wbuf, mainBusy, stdinClosed, eof, exited, crashed, relays, grp, usedKeys, ncb, strag, stragUsed, opAfterDispose>>
+  /\ UNCHANGED <<inbox, cx, cb, wbuf, mainBusy, stdinClosed, eof, exited, crashed, relays, grp, usedKeys, ncb, opAfterDispose>>
 
 \* pluginResolve: build.Resolve() may ask the client's on-resolve callbacks
 RunResolve(i) ==
   /\ Alive /\ i \in Ids /\ req[i].cmd = "resolve" /\ req[i].st = "decoded"
   /\ req' = [req EXCEPT ![i].st = "running"]
   /\ opAfterDispose' = (opAfterDispose \/ (req[i].ref /\ cx[req[i].key].disposed))
-  /\ UNCHANGED <<inbox, ab, cx, cb, wbuf, mainBusy, keepAlive, stdinClosed, eof, exited, crashed, relays, grp, usedKeys, ncb, strag, stragUsed>>
+  /\ UNCHANGED <<inbox, ab, cx, cb, wbuf, mainBusy, keepAlive, stdinClosed, eof, exited, crashed, relays, grp, usedKeys, ncb>>
 
 SendNested(i) ==
   /\ Alive /\ i \in Ids /\ req[i].cmd = "resolve" /\ req[i].st = "running" /\ req[i].a + 1 < MaxNest /\ wbuf = NoPkt
   /\ wbuf' = CbPkt("on-resolve", req[i].key, i)
   /\ req' = [req EXCEPT ![i].n = @ + 1, ![i].a = @ + 1]
   /\ keepAlive' = keepAlive + 1
-  /\ UNCHANGED <<inbox, ab, cx, cb, mainBusy, stdinClosed, eof, exited, crashed, relays, grp, usedKeys, ncb, strag, stragUsed, opAfterDispose>>
+  /\ UNCHANGED <<inbox, ab, cx, cb, mainBusy, stdinClosed, eof, exited, crashed, relays, grp, usedKeys, ncb, opAfterDispose>>
 
 FinishResolve(i) ==
   /\ Alive /\ i \in Ids /\ req[i].cmd = "resolve" /\ req[i].st = "running" /\ req[i].n = 0
   /\ req' = [req EXCEPT ![i].st = "finished", ![i].kind = "ok"]
-  /\ UNCHANGED <<inbox, ab, cx, cb, wbuf, mainBusy, keepAlive, stdinClosed, eof, exited, crashed, relays, grp, usedKeys, ncb, strag, stragUsed, opAfterDispose>>
+  /\ UNCHANGED <<inbox, ab, cx, cb, wbuf, mainBusy, keepAlive, stdinClosed, eof, exited, crashed, relays, grp, usedKeys, ncb, opAfterDispose>>
 
 (***************************************************************************)
 (* Next-state relation                                                     *)
@@ -575,8 +548,7 @@ Internal ==
   \/ \E m \in DOMAIN cb : RecvResponse(m)
   \/ MainHandoff \/ MainEOF
   \/ \E k \in Keys : \/ RelayCheck(k) \/ SendOnStart(k) \/ StartDone(k)
-                     \/ SendScanCb(k, "on-resolve") \/ SendScanCb(k, "on-load") \/ ScanDone(k) \/ ScanCut(k)
-                     \/ StragSend(k, "on-resolve") \/ StragSend(k, "on-load")
+                     \/ SendScanCb(k, "on-resolve") \/ SendScanCb(k, "on-load") \/ ScanDone(k)
                      \/ Sample(k) \/ SendOnEnd(k) \/ SkipOnEnd(k) \/ BuildEnd(k)
   \/ \E r \in relays : RelayRun(r) \/ RelayDone(r)
 
@@ -657,9 +629,13 @@ CancelWaitsForRebuilds ==
      /\ \A r \in req[c].within : req[r].st \in {"finished", "handed", "responded"}
      /\ req[c].a # None => ~\E r \in relays : r.g = req[c].a
 
-\* every plugin callback request belongs to a build in progress or to a
-\* "resolve" request in progress (violated if Stragglers)
-CallbacksWithinBuild == ~stragUsed
+\* every plugin callback request belongs to a build in progress (between its
+\* on-start barrier and the end of its scan; on-end after the outcome is
+\* fixed) or to a "resolve" request in progress
+CallbacksWithinBuild ==
+  \A m \in DOMAIN cb : (cb[m].st # "done" /\ cb[m].cmd # "ping") =>
+     IF cb[m].owner # None THEN req[cb[m].owner].st = "running"
+     ELSE cx[cb[m].key].phase = (CASE cb[m].cmd = "on-start" -> "start" [] cb[m].cmd = "on-end" -> "end" [] OTHER -> "scan")
 
 KeepAliveNonNegative == keepAlive >= 0
 \* what the keep-alive counter is for
@@ -682,7 +658,7 @@ EveryRequestAnswered ==
 \* request of the service that can no longer be answered, or a context that
 \* was never disposed, keeps it alive for ever (ExitAfterCloseStrong is
 \* violated: see known_findings.jsonl)
-Unanswerable == \E m \in DOMAIN cb : cb[m].st = "written" /\ cb[m].owner # Stray /\ cb[m].cmd # "ping"
+Unanswerable == \E m \in DOMAIN cb : cb[m].st = "written" /\ cb[m].cmd # "ping"
 LiveContext == \E k \in Keys : ab[k].exists /\ cx[k].isCtx
 ExitAfterClose == stdinClosed ~> (exited \/ crashed \/ Unanswerable \/ LiveContext)
 ExitAfterCloseStrong == stdinClosed ~> (exited \/ crashed)
